@@ -28,6 +28,7 @@ def fam_scalar():
         fs = [Field(1, 'default', S(k)), Field(2, 'required', S(k))]
         if k == 'binary':
             fs.append(Field(3, 'optional', S(k)))
+            fs.append(Field(5, 'optional', S(k), ptr=True))   # *[]byte
         else:
             fs.append(Field(3, 'optional', S(k), ptr=True))
             fs.append(Field(4, 'optional', S(k)))
@@ -55,7 +56,7 @@ def fam_map():
     out = []
     for k, kn in zip(KEYS, KEY_NAMES):
         for e, n in zip(ELEMS, ELEM_NAMES):
-            out.append({'sd': StructDef('Mp_%s_%s' % (kn, n), [Field(1, 'default', ('map', k, e))]), 'kinds': ['codec'], 'params': tparams('codec', S=2, L=2, M=3)})
+            out.append({'sd': StructDef('Mp_%s_%s' % (kn, n), [Field(1, 'default', ('map', k, e))]), 'kinds': ['codec'], 'params': (tparams('codec', S=2, L=2, M=3) if (e[0] in SCALARS and k[0] != 'struct') else tparams('codec', S=2, L=2, M=2))})
     return out
 
 def fam_bytes(nmax=8):
@@ -88,6 +89,13 @@ def fam_evolve(orders=3):
                                       Field(4, 'default', ('map', S('i8'), S('i8'))), Field(5, 'default', ('struct', LEAF, True)), Field(6, 'default', S('i64'))], has_unknown=True)
     renum = StructDef('EvRenum', [Field(11, 'default', S('i32')), Field(12, 'default', S('string')), Field(260, 'default', ('list', S('i16')))], has_unknown=True)
     out = [pair(W1, same, orders), pair(W1, minus, orders), pair(W1, minusH, orders, hop=True), pair(W1, plus, orders), pair(W1, retyped, orders, hop=True), pair(W1, renum, orders, hop=True)]
+    # alternating known / unknown fields: several separate runs of unknown fields of equal and unequal sizes
+    wa = StructDef('EvAltW', [Field(1, 'default', S('i32')), Field(2, 'default', S('string')), Field(3, 'default', S('i64')), Field(4, 'default', S('i32')),
+                              Field(5, 'default', S('string')), Field(6, 'default', S('i8')), Field(7, 'default', S('i32')), Field(8, 'default', S('i16'))])
+    ta = StructDef('EvAltH', [Field(2, 'default', S('string')), Field(4, 'default', S('i32')), Field(6, 'default', S('i8'))], has_unknown=True)
+    tb = StructDef('EvAltH2', [Field(1, 'default', S('i32')), Field(3, 'default', S('i64')), Field(5, 'default', S('string')), Field(7, 'default', S('i32'))], has_unknown=True)
+    out.append(pair(wa, ta, orders, hop=True))
+    out.append(pair(wa, tb, orders, hop=True))
     # unknown fields of every wire type nested inside known containers
     extras = [S('bool'), S('i8'), S('i16'), S('i32'), S('i64'), S('double'), S('string'), ('struct', LEAF, True),
               ('map', S('string'), S('i32')), ('set', S('i64')), ('list', S('string'))]
